@@ -1986,6 +1986,12 @@ class SymEx:
             if k in x.heap:
                 out.append((x, x.heap[k]))
                 continue
+            if b[0] == 'call' and b[1] == ('ext', 'inspect.signature') and len(b[2]) == 1 and b[2][0][0] == 'fn' and e.attr == 'parameters' and isinstance(e.ctx, ast.Load):
+                # the parameter names of a known function, in order (iterating the mapping / testing membership goes by name)
+                tgt_ = self.M.funcs.get(b[2][0][1]) or next((g_ for g_ in self.M.all_funcs() if g_.qn == b[2][0][1]), None)
+                if tgt_ is not None and not tgt_.node.args.vararg and not tgt_.node.args.kwarg:
+                    out.append((x, ('tuple', tuple(('str', n_) for n_ in tgt_.params))))
+                    continue
             if b[0] == 'fn' and e.attr in ('__name__', '__qualname__') and isinstance(e.ctx, ast.Load):
                 out.append((x, ('str', b[1].split('.')[-1] if e.attr == '__name__' else b[1])))
                 continue
@@ -3172,6 +3178,9 @@ def _dict_of_zip(z, base):
     ks, vs = z[2]
     while ks[0] == 'call' and ks[1] in (('ext', 'LIST'), ('ext', 'TUPLE')) and len(ks[2]) == 1:
         ks = ks[2][0]
+    if ks[0] in ('tuple', 'list') and vs[0] in ('tuple', 'list') and not any(x_[0] == 'starred' for x_ in ks[1] + vs[1]) and all(k_[0] in ('str', 'num') for k_ in ks[1]):
+        # dict(zip(('a', 'b', 'c'), (x, y)))  ==  {'a': x, 'b': y}: pairs up to the shorter of the two
+        return ('dict', tuple(zip(ks[1], vs[1])))
     d = ks[2][0] if ks[0] == 'call' and ks[1] == ('meth', 'keys') and len(ks[2]) == 1 else ks
     if vs[0] == 'call' and vs[1] == ('ext', 'itertools.repeat') and len(vs[2]) == 1 and not vs[3]:
         # dict(zip(keys, repeat(c)))  ==  {k: c for k in keys}
